@@ -98,7 +98,7 @@ func genC08(seed uint64, tier string) *plan.Plan {
 			pl.Ops = append(pl.Ops, plan.Op{K: "data", A: int64(r.IntN(nT)), B: int64(1 + r.IntN(1+r.IntN(40))), C: int64(r.Uint64() >> 1), D: int64(r.IntN(300)),
 				S: []string{"", "extra", "v2"}[r.IntN(3)]})
 			if r.IntN(8) == 0 {
-				pl.Ops = append(pl.Ops[:len(pl.Ops)-1], plan.Op{K: "emptyprep", A: int64(r.IntN(nT))}, pl.Ops[len(pl.Ops)-1])
+				pl.Ops = append(pl.Ops[:len(pl.Ops)-1], plan.Op{K: []string{"emptyprep", "emptysend"}[r.IntN(2)], A: int64(r.IntN(nT))}, pl.Ops[len(pl.Ops)-1])
 			}
 			if r.IntN(8) == 0 {
 				pl.Ops = append(pl.Ops, plan.Op{K: "resend", S: []string{"", "prep", "grow"}[r.IntN(3)], C: int64(r.Uint64() >> 1)})
